@@ -24,7 +24,9 @@
 #include "zdict.h"
 #include "common/pool.h"
 #include "compress/zstdmt_compress.h"
+#include "zstd_seekable.h"      /* contrib/seekable_format (plain malloc / realloc / free) */
 #include <pthread.h>
+#include <errno.h>
 #include <stdio.h>
 #include <stdlib.h>
 #include <string.h>
@@ -104,6 +106,28 @@ static void* zv_alloc(void* opaque, size_t size) { (void)opaque; return lib_allo
 void* __wrap_malloc(size_t size) { if (g_armed) return lib_alloc(size, 1, 0); return __real_malloc(size); }
 void* __wrap_calloc(size_t n, size_t size) { if (g_armed) return lib_alloc(n * size, 1, 1); return __real_calloc(n, size); }
 
+/* thread-resource requests (pthread_create, pthread_mutex_init, pthread_cond_init), interposed with -Wl,--wrap: they take part
+ * in the fault numbering only inside the scenarios that opt in (g_thr; the "thr_*" scenarios), as events t<idx>:<kind> (granted)
+ * / u<idx>:<kind> (refused: EAGAIN / ENOMEM); kind 1 = thread, 2 = mutex, 3 = condition */
+extern int __real_pthread_create(pthread_t*, const pthread_attr_t*, void* (*)(void*), void*);
+extern int __real_pthread_mutex_init(pthread_mutex_t*, const pthread_mutexattr_t*);
+extern int __real_pthread_cond_init(pthread_cond_t*, const pthread_condattr_t*);
+static int g_thr;
+static int res_request(int kind) {
+    int i, fail = 0;
+    if (!g_armed || !g_thr) return 0;
+    pthread_mutex_lock(&g_mu);
+    g_nalloc++;
+    for (i = 0; i < g_nfault; i++) if (g_fault[i] == g_nalloc) fail = 1;
+    if (fail) g_nfailed++;
+    ev(fail ? "u%ld:%ld" : "t%ld:%ld", g_nalloc, kind);
+    pthread_mutex_unlock(&g_mu);
+    return fail;
+}
+int __wrap_pthread_create(pthread_t* t, const pthread_attr_t* a, void* (*f)(void*), void* arg) { if (res_request(1)) return EAGAIN; return __real_pthread_create(t, a, f, arg); }
+int __wrap_pthread_mutex_init(pthread_mutex_t* m, const pthread_mutexattr_t* a) { if (res_request(2)) return ENOMEM; return __real_pthread_mutex_init(m, a); }
+int __wrap_pthread_cond_init(pthread_cond_t* c, const pthread_condattr_t* a) { if (res_request(3)) return ENOMEM; return __real_pthread_cond_init(c, a); }
+
 /* returns: 1 freed a live block, 2 double free, 0 unknown pointer; *plain = how the block was obtained */
 static int release_block(void* p, const char* okfmt, const char* dfmt, int* plain) {
     int i, res = 0;
@@ -152,6 +176,24 @@ void __wrap_free(void* p) {
         pthread_mutex_unlock(&g_mu);
     }
     __real_free(p);
+}
+
+/* libc realloc (contrib/seekable_format grows its frame log with it): a request for a new block; on success the old block
+ * is released (event f), on failure it stays valid (C semantics) */
+extern void* __real_realloc(void*, size_t);
+void* __wrap_realloc(void* old, size_t size) {
+    if (!g_armed) return __real_realloc(old, size);
+    {   void* p = lib_alloc(size, 1, 0); int i; size_t osz = 0;
+        if (!p) return NULL;
+        if (old) {
+            pthread_mutex_lock(&g_mu);
+            for (i = g_nblk - 1; i >= 0; i--) if (g_blk[i].p == old) { osz = g_blk[i].size; break; }
+            pthread_mutex_unlock(&g_mu);
+            if (i < 0) { fprintf(stderr, "c13_fault: realloc of an unknown block\n"); _exit(94); }
+            memcpy(p, old, osz < size ? osz : size);
+            __wrap_free(old);
+        }
+        return p; }
 }
 
 static ZSTD_customMem const g_cmem = { zv_alloc, zv_free, NULL };
@@ -311,7 +353,9 @@ static int op_dstream(const char* name, ZSTD_DCtx* d, const void* frame, size_t 
     if (cap < en + 64) { cap = en + 64; if (out) __real_free(out); out = (char*)__real_malloc(cap); }
     for (t = 0; t < MAXTRY; t++) {
         int nf0 = g_nfailed; size_t r = 1; size_t ip = 0, op = 0;
-        beg("dstream", -1, -1);
+        {   const unsigned char* f8 = (const unsigned char*)frame;   /* a v0.5 / v0.6 / v0.7 frame: its own call name for the tie */
+            if (fn > 4 && f8[0] >= 0x25 && f8[0] <= 0x27 && f8[1] == 0xB5 && f8[2] == 0x2F && f8[3] == 0xFD) beg("lstream", (long)(f8[0] - 0x20), -1);
+            else beg("dstream", -1, -1); }
         while (ip < fn) {
             size_t const ci = (fn - ip < chunk) ? fn - ip : chunk;
             ZSTD_inBuffer in = { (const char*)frame + ip, ci, 0 };
@@ -652,7 +696,7 @@ static void sc_train(int v) {
           5 optimize fastcover 2 threads  6 finalizeDictionary  7 addEntropyTablesFromBuffer */
     static char dict[1 << 14]; size_t const cap = sizeof dict; int t, i; size_t r = 0;
     const char* samples = g_src + 400000;
-    static const char* names[] = { "train_cover", "train_fastcover", "train_legacy", "trainFromBuffer", "optimize_cover", "optimize_fastcover", "finalizeDictionary", "addEntropyTables" };
+    static const char* names[] = { "train_cover", "train_fastcover", "train_legacy", "trainFromBuffer", "optimize_cover", "optimize_fastcover", "finalizeDictionary", "addEntropyTables", "optimize_cover_shrink", "optimize_fastcover_shrink" };
     for (i = 0; i < NSAMP; i++) g_ssz[i] = SSAMP;
     mark("train");
     for (t = 0; t < MAXTRY; t++) {
@@ -666,6 +710,8 @@ static void sc_train(int v) {
         case 4: { ZDICT_cover_params_t p; memset(&p, 0, sizeof p); p.d = 8; p.steps = 3; p.nbThreads = 2; p.zParams.compressionLevel = 3; r = ZDICT_optimizeTrainFromBuffer_cover(dict, 4096, samples, g_ssz, 120, &p); break; }
         case 5: { ZDICT_fastCover_params_t p; memset(&p, 0, sizeof p); p.d = 8; p.steps = 3; p.f = 12; p.accel = 2; p.nbThreads = 2; p.zParams.compressionLevel = 3; r = ZDICT_optimizeTrainFromBuffer_fastCover(dict, 4096, samples, g_ssz, 120, &p); break; }
         case 6: { ZDICT_params_t p; memset(&p, 0, sizeof p); p.compressionLevel = 3; r = ZDICT_finalizeDictionary(dict, cap, g_src + 600000, 6000, samples, g_ssz, NSAMP, p); break; }
+        case 8: { ZDICT_cover_params_t p; memset(&p, 0, sizeof p); p.d = 8; p.steps = 2; p.nbThreads = 1; p.shrinkDict = 1; p.shrinkDictMaxRegression = 5; p.zParams.compressionLevel = 3; r = ZDICT_optimizeTrainFromBuffer_cover(dict, 4096, samples, g_ssz, 120, &p); break; }
+        case 9: { ZDICT_fastCover_params_t p; memset(&p, 0, sizeof p); p.d = 8; p.steps = 2; p.f = 12; p.accel = 2; p.nbThreads = 2; p.shrinkDict = 1; p.shrinkDictMaxRegression = 5; p.zParams.compressionLevel = 3; r = ZDICT_optimizeTrainFromBuffer_fastCover(dict, 4096, samples, g_ssz, 120, &p); break; }
         default: { memcpy(dict + cap - 5000, g_src + 600000, 5000); r = ZDICT_addEntropyTablesFromBuffer(dict, 5000, cap, samples, g_ssz, NSAMP); break; }
         }
         {   int const failed = ZDICT_isError(r); int const newfail = g_nfailed - nf0;
@@ -676,6 +722,262 @@ static void sc_train(int v) {
                    return; } }
     }
     violation("training-keeps-failing", names[v]);
+}
+
+/* ------------------------------------------------------------------ round 2: more entry points */
+
+/* legacy frames (v0.5 / v0.6 / v0.7): magic, frame header with the window log, one raw block of n bytes, end block */
+static size_t make_legacy(unsigned char* out, unsigned ver, unsigned wlog, size_t n) {
+    size_t p = 0, i;
+    out[p++] = (unsigned char)(0x20 + ver); out[p++] = 0xB5; out[p++] = 0x2F; out[p++] = 0xFD;
+    if (ver == 7) { out[p++] = 0x00; out[p++] = (unsigned char)((wlog - 10) << 3); }
+    else if (ver == 6) { out[p++] = (unsigned char)(wlog - 12); }
+    else { out[p++] = (unsigned char)(wlog - 11); }
+    out[p++] = 0x40 | (unsigned char)((n >> 16) & 7); out[p++] = (unsigned char)(n >> 8); out[p++] = (unsigned char)n;
+    for (i = 0; i < n; i++) out[p++] = (unsigned char)('a' + i % 26);
+    out[p++] = 0xC0; out[p++] = 0; out[p++] = 0;
+    return p;
+}
+/* the legacy stream contexts (ZBUFFv05/06/07_createDCtx and their buffers: plain malloc) behind ZSTD_decompressStream:
+   v 0: one v0.7 frame, twice;  1: v0.5, v0.7, v0.6, a modern frame, v0.7 (version changes free + create the legacy context);
+   2: one-shot ZSTD_decompressDCtx of the three versions */
+static void sc_legacy(int v) {
+    static unsigned char fr[3][4200]; static size_t fl[3]; static char expect[4000]; static char out[8192];
+    ZSTD_DCtx* d; size_t const n = 3000; int i;
+    for (i = 0; i < 3; i++) fl[i] = make_legacy(fr[i], 5 + (unsigned)i, 17, n);
+    for (i = 0; i < (int)n; i++) expect[i] = (char)('a' + i % 26);
+    mark("create"); d = mk_dctx(); if (!d) return;
+    if (v == 0) {
+        mark("v07"); op_dstream("dstream-v07", d, fr[2], fl[2], expect, n, 700, 900);
+        mark("v07-again"); op_dstream("dstream-v07b", d, fr[2], fl[2], expect, n, 5000, 5000);
+    } else if (v == 3) {   /* version switches only (tied to the model: no modern frame in between) */
+        mark("v05"); op_dstream("dstream-v05", d, fr[0], fl[0], expect, n, 700, 900);
+        mark("v07"); op_dstream("dstream-v07", d, fr[2], fl[2], expect, n, 5000, 5000);
+        mark("v07-again"); op_dstream("dstream-v07b", d, fr[2], fl[2], expect, n, 100, 300);
+        mark("v06"); op_dstream("dstream-v06", d, fr[1], fl[1], expect, n, 333, 100);
+        mark("v05-again"); op_dstream("dstream-v05b", d, fr[0], fl[0], expect, n, 5000, 5000);
+    } else if (v == 1) {
+        mark("v05"); op_dstream("dstream-v05", d, fr[0], fl[0], expect, n, 700, 900);
+        mark("v07"); op_dstream("dstream-v07", d, fr[2], fl[2], expect, n, 5000, 5000);
+        mark("v06"); op_dstream("dstream-v06", d, fr[1], fl[1], expect, n, 333, 100);
+        mark("modern"); op_dstream("dstream-modern", d, g_fr_small, g_fr_small_n, g_src, 3000, 4096, 100000);
+        mark("v07-again"); op_dstream("dstream-v07b", d, fr[2], fl[2], expect, n, 64, 5000);
+    } else {
+        for (i = 0; i < 3; i++) { int t;
+            for (t = 0; t < MAXTRY; t++) { int nf0 = g_nfailed; size_t r; beg("decompressDCtx", -1, -1); r = ZSTD_decompressDCtx(d, out, sizeof out, fr[i], fl[i]);
+                judge("decompressDCtx-legacy", ZSTD_isError(r), ZSTD_isError(r) ? r : 0, nf0, t);
+                if (!ZSTD_isError(r)) { if (r != n || memcmp(out, expect, n)) violation("decoded-output-mismatch", "decompressDCtx-legacy"); break; } }
+            if (t == MAXTRY) violation("not-reusable-after-reset", "decompressDCtx-legacy"); }
+    }
+    mark("free"); fr_dctx(d);
+}
+
+/* entry points that use the default allocator (plain malloc / calloc / free): the simple API and the sequence API */
+#define RETRY(NAME, CALL, FAILED, CODE) \
+    { int t_; for (t_ = 0; t_ < MAXTRY; t_++) { int nf0_ = g_nfailed; beg(NAME, -1, -1); CALL; judge(NAME, (FAILED), (CODE), nf0_, t_); if (!(FAILED)) break; } \
+      if (t_ == MAXTRY) violation("keeps-failing", NAME); }
+static void sc_simple(int v) {
+    size_t r = 0; static char out[70000]; size_t const n = 60000;
+    if (v == 0) {          /* ZSTD_compress / ZSTD_decompress (contexts on the heap inside the call) */
+        size_t c = 0;
+        mark("compress"); RETRY("ZSTD_compress", r = ZSTD_compress(g_scratch, g_scratchCap, g_src, n, 3), ZSTD_isError(r), ZSTD_isError(r) ? r : 0);
+        c = r; check_rt("ZSTD_compress", g_scratch, c, g_src, n, NULL, 0);
+        mark("decompress"); RETRY("ZSTD_decompress", r = ZSTD_decompress(out, sizeof out, g_scratch, c), ZSTD_isError(r), ZSTD_isError(r) ? r : 0);
+        if (r != n || memcmp(out, g_src, n)) violation("decoded-output-mismatch", "ZSTD_decompress");
+    } else if (v == 1) {   /* default-allocator CCtx / DCtx / CDict / DDict, *_usingDict, *_usingCDict, *_usingDDict */
+        ZSTD_CCtx* c = NULL; ZSTD_DCtx* d = NULL; ZSTD_CDict* cd = NULL; ZSTD_DDict* dd = NULL; size_t cs;
+        const char* src = g_src + 100000 + 7 * 600;
+        mark("create"); RETRY("ZSTD_createCCtx", c = ZSTD_createCCtx(), c == NULL, 0); RETRY("ZSTD_createDCtx", d = ZSTD_createDCtx(), d == NULL, 0);
+        RETRY("ZSTD_createCDict", cd = ZSTD_createCDict(g_dict, g_dictSize, 5), cd == NULL, 0);
+        RETRY("ZSTD_createDDict", dd = ZSTD_createDDict(g_dict, g_dictSize), dd == NULL, 0);
+        if (c && d && cd && dd) {
+            mark("usingDict"); RETRY("compress_usingDict", r = ZSTD_compress_usingDict(c, g_scratch, g_scratchCap, src, 4000, g_dict, g_dictSize, 3), ZSTD_isError(r), ZSTD_isError(r) ? r : 0);
+            cs = r; RETRY("decompress_usingDict", r = ZSTD_decompress_usingDict(d, out, sizeof out, g_scratch, cs, g_dict, g_dictSize), ZSTD_isError(r), ZSTD_isError(r) ? r : 0);
+            if (r != 4000 || memcmp(out, src, 4000)) violation("decoded-output-mismatch", "decompress_usingDict");
+            mark("usingCDict"); RETRY("compress_usingCDict", r = ZSTD_compress_usingCDict(c, g_scratch, g_scratchCap, src, 4000, cd), ZSTD_isError(r), ZSTD_isError(r) ? r : 0);
+            cs = r; RETRY("decompress_usingDDict", r = ZSTD_decompress_usingDDict(d, out, sizeof out, g_scratch, cs, dd), ZSTD_isError(r), ZSTD_isError(r) ? r : 0);
+            if (r != 4000 || memcmp(out, src, 4000)) violation("decoded-output-mismatch", "decompress_usingDDict");
+            mark("initCStream_usingDict");
+            RETRY("initCStream_usingDict", r = ZSTD_initCStream_usingDict(c, g_dict, g_dictSize, 4), ZSTD_isError(r), ZSTD_isError(r) ? r : 0);
+            {   int t; for (t = 0; t < MAXTRY; t++) { int nf0 = g_nfailed; ZSTD_inBuffer in = { src, 4000, 0 }; ZSTD_outBuffer o = { g_scratch, g_scratchCap, 0 };
+                    beg("endStream", -1, -1); r = ZSTD_compressStream2(c, &o, &in, ZSTD_e_end); judge("compressStream2-usingDict", ZSTD_isError(r), ZSTD_isError(r) ? r : 0, nf0, t);
+                    if (!ZSTD_isError(r)) { check_rt("compressStream2-usingDict", g_scratch, o.pos, src, 4000, g_dict, g_dictSize); break; }
+                    ZSTD_CCtx_reset(c, ZSTD_reset_session_only); } }
+            mark("initDStream_usingDict");
+            RETRY("initDStream_usingDict", r = ZSTD_initDStream_usingDict(d, g_dicts[7], g_dictSize), ZSTD_isError(r), ZSTD_isError(r) ? r : 0);
+            op_dstream("dstream-usingDict", d, g_fr_dict, g_fr_dict_n, src, 4000, 500, 600);
+        }
+        mark("free"); beg("free", -1, -1); ZSTD_freeCCtx(c); ZSTD_freeDCtx(d); ZSTD_freeCDict(cd); ZSTD_freeDDict(dd); endc("");
+    } else if (v == 2) {   /* ZSTD_createCDict_advanced2 with dedicated dictionary search, attached to a lazy-strategy compression */
+        ZSTD_CCtx* c; ZSTD_CDict* cd = NULL; ZSTD_CCtx_params* p; const char* src = g_src + 100000 + 7 * 600; int sg = g_armed;
+        g_armed = 0; p = ZSTD_createCCtxParams(); g_armed = sg;
+        ZSTD_CCtxParams_init(p, 6); ZSTD_CCtxParams_setParameter(p, ZSTD_c_enableDedicatedDictSearch, 1);
+        mark("createCDict"); RETRY("createCDict_advanced2", cd = ZSTD_createCDict_advanced2(g_dict, g_dictSize, ZSTD_dlm_byCopy, ZSTD_dct_auto, p, g_cmem), cd == NULL, 0);
+        mark("create"); c = mk_cctx();
+        if (c && cd) { setp(c, ZSTD_c_compressionLevel, 6); ZSTD_CCtx_refCDict(c, cd);
+            mark("compress"); op_compress2("compress2-dds", c, src, 6000, g_dict, g_dictSize);
+            mark("compress-big"); op_compress2("compress2-dds-big", c, g_src + 100000, 400000, g_dict, g_dictSize); }
+        mark("free"); fr_cctx(c); fr_cdict(cd); g_armed = 0; ZSTD_freeCCtxParams(p); g_armed = sg;
+    } else {               /* sequence API: ZSTD_generateSequences (scratch buffer through the default allocator), ZSTD_compressSequences */
+        ZSTD_CCtx* c; size_t const sn = 50000; size_t const cap = ZSTD_sequenceBound(sn); size_t ns = 0; int sg = g_armed;
+        ZSTD_Sequence* seqs; g_armed = 0; seqs = (ZSTD_Sequence*)__real_malloc(cap * sizeof(ZSTD_Sequence)); g_armed = sg;
+        mark("create"); c = mk_cctx(); if (!c) { __real_free(seqs); return; }
+        setp(c, ZSTD_c_compressionLevel, 3);
+        mark("generate");
+        {   int t; for (t = 0; t < MAXTRY; t++) { int nf0 = g_nfailed; beg("generateSequences", -1, -1); r = ZSTD_generateSequences(c, seqs, cap, g_src, sn);
+                judge("generateSequences", ZSTD_isError(r), ZSTD_isError(r) ? r : 0, nf0, t); if (!ZSTD_isError(r)) { ns = r; break; } ZSTD_CCtx_reset(c, ZSTD_reset_session_only); }
+            if (t == MAXTRY) violation("not-reusable-after-reset", "generateSequences"); }
+        if (ns) {
+            ZSTD_CCtx_reset(c, ZSTD_reset_session_and_parameters);
+            setp(c, ZSTD_c_blockDelimiters, ZSTD_sf_explicitBlockDelimiters); setp(c, ZSTD_c_validateSequences, 1);
+            mark("compressSequences");
+            {   int t; for (t = 0; t < MAXTRY; t++) { int nf0 = g_nfailed; beg("compressSequences", -1, -1); r = ZSTD_compressSequences(c, g_scratch, g_scratchCap, seqs, ns, g_src, sn);
+                    judge("compressSequences", ZSTD_isError(r), ZSTD_isError(r) ? r : 0, nf0, t);
+                    if (!ZSTD_isError(r)) { check_rt("compressSequences", g_scratch, r, g_src, sn, NULL, 0); break; } ZSTD_CCtx_reset(c, ZSTD_reset_session_only); }
+                if (t == MAXTRY) violation("not-reusable-after-reset", "compressSequences"); }
+            mark("compress-after"); op_compress2("compress2-after-sequences", c, g_src + 9, 30000, NULL, 0);
+        }
+        mark("free"); fr_cctx(c); __real_free(seqs);
+    }
+}
+
+/* dictionaries that are refused for their CONTENT (ZSTD_dct_fullDict on bytes that are no zstd dictionary): the constructors
+   unwind through their free functions although no allocation failed; with every k on top.  Expected: NULL / error, nothing kept */
+static void sc_dict_invalid(int v) {
+    ZSTD_CCtx* c; ZSTD_DCtx* d; size_t r; int t; (void)v;
+    ZSTD_compressionParameters cp = ZSTD_getCParams(3, 0, 5000);
+    mark("cdict");
+    for (t = 0; t < 2; t++) { ZSTD_CDict* cd; beg("createCDict_invalid", t, -1); cd = ZSTD_createCDict_advanced(g_src + 777, 5000, t ? ZSTD_dlm_byRef : ZSTD_dlm_byCopy, ZSTD_dct_fullDict, cp, g_cmem);
+        endc(cd ? "ok" : "NULL"); if (cd) { violation("invalid-dictionary-accepted", "createCDict"); ZSTD_freeCDict(cd); } }
+    mark("ddict");
+    for (t = 0; t < 2; t++) { ZSTD_DDict* dd; beg("createDDict_invalid", t, -1); dd = ZSTD_createDDict_advanced(g_src + 777, 5000, t ? ZSTD_dlm_byRef : ZSTD_dlm_byCopy, ZSTD_dct_fullDict, g_cmem);
+        endc(dd ? "ok" : "NULL"); if (dd) { violation("invalid-dictionary-accepted", "createDDict"); ZSTD_freeDDict(dd); } }
+    mark("cctx"); c = mk_cctx();
+    if (c) { int loaded; beg("loadDictionary_invalid", -1, -1); r = ZSTD_CCtx_loadDictionary_advanced(c, g_src + 777, 5000, ZSTD_dlm_byCopy, ZSTD_dct_fullDict); endc(ZSTD_isError(r) ? "E" : "ok");
+        loaded = !ZSTD_isError(r);   /* the content is examined when the local CDict is built, i.e. by the compression */
+        beg("compress_invalid", -1, -1); r = ZSTD_compress2(c, g_scratch, g_scratchCap, g_src, 20000); endc(ZSTD_isError(r) ? "E" : "ok");
+        if (loaded && !ZSTD_isError(r)) violation("invalid-dictionary-accepted", "compress2");
+        beg("CCtx_reset", -1, -1); ZSTD_CCtx_reset(c, ZSTD_reset_session_and_parameters); endc("ok");
+        mark("compress-after"); op_compress2("compress2-after-invalid-dict", c, g_src, 20000, NULL, 0); }
+    mark("dctx"); d = mk_dctx();
+    if (d) { beg("DCtx_loadDictionary_invalid", -1, -1); r = ZSTD_DCtx_loadDictionary_advanced(d, g_src + 777, 5000, ZSTD_dlm_byCopy, ZSTD_dct_fullDict); endc(ZSTD_isError(r) ? "E" : "ok");
+        if (!ZSTD_isError(r)) violation("invalid-dictionary-accepted", "DCtx_loadDictionary");
+        mark("stream-after"); op_dstream("dstream-after-invalid-dict", d, g_fr_small, g_fr_small_n, g_src, 3000, 4096, 100000); }
+    mark("free"); fr_cctx(c); fr_dctx(d);
+}
+
+/* multithreaded compression, more configurations: v 0 prefix (raw content, by reference) + 2 workers; 1 CDict + 2 workers;
+   2 a thread pool shared through ZSTD_CCtx_refThreadPool; 3 LDM + 3 workers + streaming with flushes; 4 overlapLog 9 + 2 workers streaming
+   (round buffer as large as it gets); 5 dictionary by reference + 1 worker + two frames; 6 shared pool of 2 threads, then 4 workers,
+   then 1; 7 nbWorkers 2 -> 0 -> 3 -> 0 on one context */
+static void sc_mt2(int v) {
+    ZSTD_CCtx* c; ZSTD_CDict* cd = NULL; ZSTD_threadPool* tp = NULL; size_t const n = 1400000; int rep;
+    mark("create"); c = mk_cctx(); if (!c) return;
+    setp(c, ZSTD_c_compressionLevel, 1); setp(c, ZSTD_c_jobSize, 1 << 19);
+    setp(c, ZSTD_c_nbWorkers, v == 3 ? 3 : (v == 5 ? 1 : 2));
+    if (v == 1) { mark("createCDict"); cd = mk_cdict(0, 3); if (!cd) { fr_cctx(c); return; } { size_t r; beg("refCDict", -1, -1); r = ZSTD_CCtx_refCDict(c, cd); endc(ZSTD_isError(r) ? "E" : "ok"); } }
+    if (v == 2 || v == 6) { mark("threadPool"); RETRY("createThreadPool", tp = ZSTD_createThreadPool(v == 6 ? 2 : 3), tp == NULL, 0);
+                  if (tp) { size_t r; beg("refThreadPool", -1, -1); r = ZSTD_CCtx_refThreadPool(c, tp); endc(ZSTD_isError(r) ? "E" : "ok"); } }
+    if (v == 3) { setp(c, ZSTD_c_enableLongDistanceMatching, 1); setp(c, ZSTD_c_windowLog, 20); setp(c, ZSTD_c_checksumFlag, 1); }
+    if (v == 4) { setp(c, ZSTD_c_overlapLog, 9); setp(c, ZSTD_c_windowLog, 21); }
+    if (v == 8) {   /* a streaming multithreaded compression that fails is abandoned: no reset, the context is freed with jobs possibly in flight */
+        size_t ip = 0, r = 0; int nf0 = g_nfailed; size_t const total = 2300000;
+        mark("compress-once"); beg("compress", -1, -1);
+        while (ip < total) { ZSTD_inBuffer in = { g_src + ip, 400000 < total - ip ? 400000 : total - ip, 0 }; ZSTD_outBuffer o = { g_scratch, g_scratchCap, 0 };
+            r = ZSTD_compressStream2(c, &o, &in, ZSTD_e_continue); if (ZSTD_isError(r)) break; ip += in.pos; }
+        while (!ZSTD_isError(r)) { ZSTD_inBuffer in = { NULL, 0, 0 }; ZSTD_outBuffer o = { g_scratch, g_scratchCap, 0 };   /* a worker-side failure surfaces here at the latest */
+            r = ZSTD_compressStream2(c, &o, &in, ZSTD_e_end); if (r == 0) break; }
+        judge("mt2-cstream-once", ZSTD_isError(r), ZSTD_isError(r) ? r : 0, nf0, 0);
+        mark("free"); fr_cctx(c); return; }
+    for (rep = 0; rep < 2; rep++) {
+        mark(rep ? "again" : "compress");
+        if (v == 0) { size_t r; beg("refPrefix", -1, -1); r = ZSTD_CCtx_refPrefix(c, g_src + 2000000, 300000); endc(ZSTD_isError(r) ? "E" : "ok"); }
+        if (v == 5 && rep == 0) { int nf0 = g_nfailed; size_t r = do_load_dict(c, 1, g_dict); judge("loadDictionary", ZSTD_isError(r), ZSTD_isError(r) ? r : 0, nf0, 0); }
+        if (v == 0) {   /* the prefix is single-use: no retry of the same call */
+            int nf0 = g_nfailed; size_t r; beg("compress", -1, -1); r = ZSTD_compress2(c, g_scratch, g_scratchCap, g_src + rep, n);
+            judge("mt-compress2-prefix", ZSTD_isError(r), ZSTD_isError(r) ? r : 0, nf0, 0);
+            if (!ZSTD_isError(r)) check_rt("mt-compress2-prefix", g_scratch, r, g_src + rep, n, g_src + 2000000, 300000);
+            else { beg("CCtx_reset", -1, -1); ZSTD_CCtx_reset(c, ZSTD_reset_session_only); endc("ok"); }
+        } else if (v == 3 || v == 4) op_cstream("mt2-cstream", c, g_src + rep, v == 3 ? 2300000 : n, 180000, 90000, 2);
+        else op_compress2("mt2-compress2", c, g_src + rep, n, (v == 1 || v == 5) ? g_dict : NULL, (v == 1 || v == 5) ? g_dictSize : 0);
+    }
+    if (v == 6) {   /* more workers than the shared pool has threads: ZSTDMT_resize grows the caller's pool and every table */
+        mark("grow"); setp(c, ZSTD_c_nbWorkers, 4); op_compress2("mt2-compress2-4", c, g_src + 5, n, NULL, 0);
+        mark("shrink"); setp(c, ZSTD_c_nbWorkers, 1); op_compress2("mt2-compress2-1", c, g_src + 6, 600000, NULL, 0); }
+    if (v == 7) {   /* one context switching between multithreaded and single-threaded compression */
+        mark("st"); setp(c, ZSTD_c_nbWorkers, 0); op_compress2("mt2-compress2-st", c, g_src + 5, 300000, NULL, 0);
+        mark("mt-again"); setp(c, ZSTD_c_nbWorkers, 3); op_compress2("mt2-compress2-mt3", c, g_src + 6, n, NULL, 0);
+        mark("st-again"); setp(c, ZSTD_c_nbWorkers, 0); op_cstream("mt2-cstream-st", c, g_src + 7, 200000, 50000, 30000, 0); }
+    mark("free"); fr_cctx(c); if (cd) fr_cdict(cd);
+    if (tp) { beg("freeThreadPool", -1, -1); ZSTD_freeThreadPool(tp); endc(""); }
+}
+
+/* thread-resource failures: the same scenarios with pthread_create / pthread_mutex_init / pthread_cond_init taking part in the
+   fault numbering (a refused thread or mutex must give NULL / memory_allocation, release everything, and leave the context usable) */
+static void sc_thr(int v) {
+    g_thr = 1;
+    switch (v) {
+    case 0: sc_pool(7); break;
+    case 1: sc_mtctx(1); break;
+    case 2: sc_mtresize(0); break;
+    case 3: sc_mt(0); break;
+    case 4: sc_mt(5); break;
+    case 5: sc_mt2(2); break;
+    case 6: sc_train(4); break;
+    default: sc_train(5); break;
+    }
+    g_thr = 0;
+}
+
+/* contrib/seekable_format: plain malloc / realloc / free.  v 0: 40 frames of 1000 bytes with checksums (the frame log grows
+   16 -> 32 -> 64 entries by realloc), then the archive is read back through ZSTD_seekable (create, initBuff = seek table
+   allocation, reads, ZSTD_seekTable_create_fromSeekable);  a failed call is simply made again (there is no reset in this API) */
+static void sc_seekable(int v) {
+    ZSTD_seekable_CStream* zcs = NULL; ZSTD_seekable* zs = NULL; ZSTD_seekTable* st = NULL; size_t r = 0; size_t const n = 40000; size_t alen = 0;
+    static char out[40000]; int tries; (void)v;
+    mark("createCStream"); RETRY("seekable_createCStream", zcs = ZSTD_seekable_createCStream(), zcs == NULL, 0);
+    if (!zcs) return;
+    mark("initCStream"); RETRY("seekable_initCStream", r = ZSTD_seekable_initCStream(zcs, 3, 1, 1000), ZSTD_isError(r), ZSTD_isError(r) ? r : 0);
+    mark("compress");
+    {   ZSTD_inBuffer in = { g_src, n, 0 }; ZSTD_outBuffer o = { g_scratch, g_scratchCap, 0 }; int bad = 0;
+        tries = 0;
+        while (in.pos < in.size) { int nf0 = g_nfailed; size_t const before = in.pos; beg("seekable_compressStream", -1, -1); r = ZSTD_seekable_compressStream(zcs, &o, &in);
+            if (ZSTD_isError(r)) { judge("seekable_compressStream", 1, r, nf0, tries); if (++tries > g_nfault + 2) { violation("keeps-failing", "seekable_compressStream"); bad = 1; break; } }
+            else { endc("ok"); if (g_nfailed != nf0) { g_succ_despite_fail++; oplog("seekable_compressStream", "note-success-despite-alloc-failure"); }
+                   if (in.pos == before && ++tries > 100) { violation("no-progress", "seekable_compressStream"); bad = 1; break; } } }
+        tries = 0;
+        while (!bad) { int nf0 = g_nfailed; beg("seekable_endStream", -1, -1); r = ZSTD_seekable_endStream(zcs, &o);
+            if (ZSTD_isError(r)) { judge("seekable_endStream", 1, r, nf0, tries); if (++tries > g_nfault + 2) { violation("keeps-failing", "seekable_endStream"); bad = 1; } }
+            else { endc("ok"); if (g_nfailed != nf0) { g_succ_despite_fail++; oplog("seekable_endStream", "note-success-despite-alloc-failure"); } if (r == 0) break; if (++tries > 100) { violation("no-progress", "seekable_endStream"); bad = 1; } } }
+        alen = o.pos;
+        mark("freeCStream"); beg("seekable_freeCStream", -1, -1); ZSTD_seekable_freeCStream(zcs); endc("");
+        if (bad) return;
+    }
+    {   /* independent check of the archive: every byte through a seekable reader that is not part of the case, and as a plain multi-frame stream */
+        int sg = g_armed; g_armed = 0;
+        {   ZSTD_seekable* chk = ZSTD_seekable_create(); size_t ir = ZSTD_seekable_initBuff(chk, g_scratch, alen);
+            if (ZSTD_isError(ir)) violation("archive-not-openable", "seekable");
+            else { size_t got = ZSTD_seekable_decompress(chk, out, n, 0); if (got != n || memcmp(out, g_src, n)) violation("archive-round-trip-mismatch", "seekable");
+                   { unsigned const nfr = ZSTD_seekable_getNumFrames(chk); if (nfr != 40 && nfr != 41) violation("archive-frame-count", "seekable"); } }
+            ZSTD_seekable_free(chk); }
+        g_armed = sg; }
+    mark("create"); RETRY("seekable_create", zs = ZSTD_seekable_create(), zs == NULL, 0);
+    if (!zs) return;
+    mark("initBuff"); RETRY("seekable_initBuff", r = ZSTD_seekable_initBuff(zs, g_scratch, alen), ZSTD_isError(r), ZSTD_isError(r) ? r : 0);
+    if (!ZSTD_isError(r)) {
+        mark("read"); RETRY("seekable_decompress", r = ZSTD_seekable_decompress(zs, out, 5000, 12345), ZSTD_isError(r), ZSTD_isError(r) ? r : 0);
+        if (!ZSTD_isError(r) && (r != 5000 || memcmp(out, g_src + 12345, 5000))) violation("decoded-output-mismatch", "seekable_decompress");
+        RETRY("seekable_decompress2", r = ZSTD_seekable_decompress(zs, out, 700, 100), ZSTD_isError(r), ZSTD_isError(r) ? r : 0);
+        if (!ZSTD_isError(r) && (r != 700 || memcmp(out, g_src + 100, 700))) violation("decoded-output-mismatch", "seekable_decompress2");
+        mark("seekTable"); RETRY("seekTable_create", st = ZSTD_seekTable_create_fromSeekable(zs), st == NULL, 0);
+        if (st) { if (ZSTD_seekTable_getNumFrames(st) != ZSTD_seekable_getNumFrames(zs)) violation("seek-table-copy-wrong", "seekTable_create"); }
+        if (v == 1) {   /* the same object opened again: the first seek table belongs to the object and must not be lost */
+            mark("reinit"); RETRY("seekable_initBuff2", r = ZSTD_seekable_initBuff(zs, g_scratch, alen), ZSTD_isError(r), ZSTD_isError(r) ? r : 0);
+            RETRY("seekable_decompress3", r = ZSTD_seekable_decompress(zs, out, 900, 39000), ZSTD_isError(r), ZSTD_isError(r) ? r : 0);
+            if (!ZSTD_isError(r) && (r != 900 || memcmp(out, g_src + 39000, 900))) violation("decoded-output-mismatch", "seekable_decompress3");
+        }
+    }
+    mark("free"); beg("seekable_free", -1, -1); ZSTD_seekable_free(zs); ZSTD_seekTable_free(st); endc("");
 }
 
 static const scen_t g_scen[] = {
@@ -703,6 +1005,16 @@ static const scen_t g_scen[] = {
     { "train_cover", sc_train, 0, 0 }, { "train_fastcover", sc_train, 1, 0 }, { "train_legacy", sc_train, 2, 0 }, { "train_default", sc_train, 3, 1 },
     { "train_opt_cover_mt", sc_train, 4, 1 }, { "train_opt_fastcover_mt", sc_train, 5, 1 },
     { "train_finalize", sc_train, 6, 0 }, { "train_add_entropy", sc_train, 7, 0 },
+    { "train_opt_cover_shrink", sc_train, 8, 1 }, { "train_opt_fastcover_shrink_mt", sc_train, 9, 1 },
+    /* round 2 (direct oracle only) */
+    { "legacy_v07", sc_legacy, 0, 0 }, { "legacy_versions", sc_legacy, 1, 0 }, { "legacy_oneshot", sc_legacy, 2, 0 }, { "legacy_switch", sc_legacy, 3, 0 },
+    { "simple_api", sc_simple, 0, 0 }, { "simple_dict_api", sc_simple, 1, 0 }, { "simple_cdict_dds", sc_simple, 2, 0 }, { "simple_sequences", sc_simple, 3, 0 },
+    { "mt2_prefix", sc_mt2, 0, 0 }, { "mt2_cdict", sc_mt2, 1, 0 }, { "mt2_threadpool", sc_mt2, 2, 0 }, { "mt2_ldm_stream", sc_mt2, 3, 1 },
+    { "mt2_overlap9", sc_mt2, 4, 1 }, { "mt2_dict_ref", sc_mt2, 5, 0 }, { "mt2_threadpool_grow", sc_mt2, 6, 0 }, { "mt2_switch_st", sc_mt2, 7, 0 }, { "mt2_fail_then_free", sc_mt2, 8, 0 },
+    { "thr_pool", sc_thr, 0, 0 }, { "thr_mtctx", sc_thr, 1, 0 }, { "thr_mtresize", sc_thr, 2, 0 }, { "thr_mt_oneshot", sc_thr, 3, 0 },
+    { "thr_mt_resize", sc_thr, 4, 0 }, { "thr_threadpool", sc_thr, 5, 0 }, { "thr_opt_cover", sc_thr, 6, 1 }, { "thr_opt_fastcover", sc_thr, 7, 1 },
+    { "invalid_dict", sc_dict_invalid, 0, 0 },
+    { "seekable_rw", sc_seekable, 0, 0 }, { "seekable_reinit", sc_seekable, 1, 0 },
 };
 #define NSCEN ((int)(sizeof g_scen / sizeof *g_scen))
 
